@@ -171,7 +171,10 @@ def apply_annotations(fn, ann: Dict[str, Any], shared: Dict[str, Any], m: Dict[s
                                                                              for i, t in enumerate(ann['tags'])])
             shared.setdefault('user_lists', []).append(kw['tags'])
         if ann.get('examples'):
-            ex = [openapi.MethodExample(params={n: 1 for n in names}, result=5, summary=f'ex{i}', description='an example')
+            # OpenAPI generation normalises python tuples / sets among user values into JSON arrays (drop_unset), so the
+            # second example carries one of each: the document must stay JSON-encodable
+            ex = [openapi.MethodExample(params={n: ((1, 2) if i else 1) for n in names}, result=({5} if i else 5), summary=f'ex{i}',
+                                        description='an example')
                   for i in range(ann['examples'])]
             kw['examples'] = ex
             shared.setdefault('user_lists', []).append(ex)
@@ -182,7 +185,7 @@ def apply_annotations(fn, ann: Dict[str, Any], shared: Dict[str, Any], m: Dict[s
             kw['servers'] = [openapi.Server(url='https://example.org/api', description='srv')]
             shared.setdefault('user_lists', []).append(kw['servers'])
         if ann.get('security'):
-            kw['security'] = [{'basicAuth': []}]
+            kw['security'] = [{'basicAuth': ()}]
         if ann.get('params_schema'):
             kw['params_schema'] = {n: {'type': 'integer', 'title': n.capitalize()} for n in names}
             shared.setdefault('user_lists', []).append(kw['params_schema'])
